@@ -457,7 +457,7 @@ func (sg *stGen) callStepCase(p stPlugin, stepID string, raw *hx.Val, beh *stBeh
 	var callErr error
 	res := hx.Guard(func() hx.Result {
 		cs := stBuild(p, rec, beh, false, hasInit)
-		outID, outData, callErr = cs.CallStep(context.Background(), "run-1", stepID, raw.ToGo())
+		outID, outData, callErr = cs.CallStep(stCtx(sg.g.R.Intn(8)), "run-1", stepID, raw.ToGo())
 		if callErr != nil {
 			return hx.Result{R: "err", Msg: callErr.Error()}
 		}
@@ -612,7 +612,7 @@ func (sg *stGen) callSignalCase(p stPlugin, stepID, sigID string, raw *hx.Val, p
 	var callErr error
 	res := hx.Guard(func() hx.Result {
 		cs := stBuild(p, rec, &stBeh{Kind: "panic"}, panics, hasInit)
-		callErr = cs.CallSignal(context.Background(), "run-1", stepID, sigID, raw.ToGo())
+		callErr = cs.CallSignal(stCtx(sg.g.R.Intn(8)), "run-1", stepID, sigID, raw.ToGo())
 		if callErr != nil {
 			return hx.Result{R: "err", Msg: callErr.Error()}
 		}
@@ -1155,4 +1155,30 @@ func stepsCmd(a Args) {
 	s.stats["cases"] = s.nextID
 	s.stats["gomaxprocs"] = runtime.GOMAXPROCS(0)
 	writeStats(a.Out, s, sg.g)
+}
+
+type stCtxKey struct{}
+
+// stCtx: the contexts a caller may hand to CallStep / CallSignal. Whether the handler runs depends on
+// the step ID and the input only (C11): a context that is already cancelled or past its deadline is
+// the handler's business (it receives it), not a reason to skip the handler.
+func stCtx(k int) context.Context {
+	switch k {
+	case 0:
+		ctx, cancel := context.WithCancel(context.Background())
+		cancel()
+		return ctx
+	case 1:
+		ctx, cancel := context.WithDeadline(context.Background(), time.Unix(1, 0))
+		_ = cancel
+		return ctx
+	case 2:
+		ctx, cancel := context.WithTimeout(context.Background(), time.Hour)
+		_ = cancel
+		return ctx
+	case 3:
+		return context.WithValue(context.Background(), stCtxKey{}, "v")
+	default:
+		return context.Background()
+	}
 }
